@@ -175,7 +175,10 @@ class Ctx:
             self.samples.append(self.sample_of(trace.path))
         rejected = []
         rounds = 0
-        while True:
+        # Segments are independent (each begins with a reset), so after a rejection only what FOLLOWS the rejected segment
+        # is validated again; the accepted part in front of it is validated once more on its own to learn which listed
+        # deviations it relied on.  Total cost stays linear in the trace however many segments fail.
+        while lines:
             rounds += 1
             cur = os.path.join(self.out, 'seg-%s-%d.ndjson' % (label, rounds))
             open(cur, 'w').writelines(lines)
@@ -206,7 +209,15 @@ class Ctx:
             tail = res['out'][res['out'].find('"TRACE-REJECTED-AT"') - 2:][:3000]
             rejected.append({'segment': name, 'event': render_event(json.loads(lines[at - 1])), 'tlc': tail,
                              'lines': lines[start:end]})
-            del lines[start:end]
+            if start > 0:
+                pre = os.path.join(self.out, 'seg-%s-%d-accepted.ndjson' % (label, rounds))
+                open(pre, 'w').writelines(lines[:start])
+                pres = tlc.validate_trace(pre, wd, deviations=self.open_devs.keys(), module=module, timeout=1200)
+                if pres['tool_error'] or not pres['ok']:
+                    raise ToolError('an accepted prefix was not accepted on its own: %s' % pre)
+                for d in pres['devs']:
+                    self.fired.setdefault(d, pre)
+            lines = lines[end:]
             if len(rejected) >= cap:
                 self.note('segment validation capped at %d rejections for %s' % (cap, label))
                 break
